@@ -72,7 +72,7 @@ class DeviceConn:
         self.outbox: list[tuple[Any, ...]] | None = None
         self.sent: list[dict[str, Any]] = []
         self.first_byte_seq: int | None = None
-        self.last_due = 0.0
+        self.handshake_on_wire_at: float | None = None
         self.immediate = False   # True: bypass the event queue (bytes are in the socket buffer at once)
         dev.conns.append(self)
 
@@ -134,6 +134,7 @@ class DeviceConn:
                     continue
                 self.send_raw(refcodec.enc_noise_outer(hello) + refcodec.enc_noise_outer(b"\x00" + self.resp.write_message2(b"")))
                 self.noise_state = "ready"
+                self.handshake_on_wire_at = self.sim.clock + (0.0 if self.immediate else self.cfg.reply_delay)
             elif self.noise_state == "ready":
                 assert self.resp is not None
                 try:
@@ -276,10 +277,15 @@ class DeviceConn:
         if self.immediate:
             put()
         else:
-            # one TCP stream: bytes written later never overtake bytes written earlier (a delayed reply holds back what follows it)
-            due = max(self.sim.clock + delay, self.last_due)
-            self.last_due = due
-            self.sim.net.at(due, put)
+            # `delay` is the device's think time: the write happens at now+delay, and writes reach the client in write order
+            self.sim.net.at(self.sim.clock + delay, put)
+
+    def can_send_encrypted(self) -> bool:
+        """A Noise device cannot emit an encrypted frame before its handshake message has actually been written."""
+        if not self.noise:
+            return True
+        return self.resp is not None and self.resp.tx is not None and self.handshake_on_wire_at is not None \
+            and self.sim.clock >= self.handshake_on_wire_at
 
     # ------------------------------------------------------------ queries
     def received_names(self) -> list[str]:
